@@ -22,6 +22,8 @@ import TrompModel.Props.C14_SeqHeapRefines
 import TrompModel.Tie.IsCompleted
 import TrompModel.Tie.HandleRetire
 import TrompModel.Tie.HandleDetach
+import TrompModel.Tie.SeqDtor
+import TrompModel.Props.C14_HandlePending
 import TrompModel.Props.C14_HandleWorld
 
 namespace Tromp.Tie
@@ -243,5 +245,30 @@ theorem handle_retire_script (n : Nat) (st : HState) (o : Owner) (s : Nat) :
 theorem handle_detach_script (n : Nat) (st : HState) (o : Owner) (s : Nat) :
     Cxx.handle_detach.flatMap (handleOpsOfAct n o s) = hScript n st (.detach o s) := by
   rw [handle_detach_order]; rfl
+
+/-! ### `~sequence_type` evaluated on the machine's rings -/
+
+/-- **the teardown report of a sequence object, on the real layout**: at any point of any history, the translated
+    `~sequence_type` run over what an iterator visits on the machine's pending and retired rings of sequence `s` reports exactly
+    the World's pending list of `s`, in registration order (nothing if it is empty), whatever is on the retired ring, and leaves
+    both lists empty — C06's teardown clause, from the C++ text down to the pointers and back. -/
+theorem seq_dtor_on_machine (n : Nat) (ops : List Tromp.Op) (hb : ∀ op ∈ ops, ∀ s ∈ registers op, s < n) (s : Nat) (hs : s < n) :
+    let st := (machineRun n ({}, hInit n) ops).2
+    let w := (World.run {} ops).1
+    Cxx.seq_dtor (toList st.hp (SAddr.pending s) ((st.a.lists (SAddr.pending s)).length + 1))
+                 (toList st.hp (retiredObj n s) ((st.a.lists (retiredObj n s)).length + 1)) =
+      (if (w.pendingOf s).isEmpty then none
+       else some (Sev.nonfatal, teardownText ((w.pendingOf s).map (fun o => SAddr.handle o s))), [], []) := by
+  intro st w
+  obtain ⟨I, _⟩ := machine_follows_world n ops hb
+  have hp := machine_pending_is_world n ops hb s hs
+  have r1 := I.rep.rings (SAddr.pending s) (pending_head I (by omega))
+  have r2 := I.rep.rings (retiredObj n s) (pending_head I (k := n + s) (by omega))
+  have w1 := toList_ring r1 0
+  have w2 := toList_ring r2 0
+  simp only [Nat.add_zero] at w1 w2
+  rw [w1, w2, seq_dtor_eq, hp]
+  simp only [List.isEmpty_iff, List.map_eq_nil_iff]
+  rfl
 
 end Tromp.Tie
